@@ -19,10 +19,14 @@ def run(c, p):
     op = p["op"]
     if op == "unpack":
         return ba.unpack(), a
+    if op == "unpack2":
+        first = ba.unpack()
+        first[...] = 0          # the unpacked array is the caller's: overwriting it must not reach the packed registers
+        return ba.unpack(), a
     if op == "getint":
         return ba[pyint(c["i"])], a
     if op == "getlist":
-        idx = [pyint(i) for i in c["idx"]] if p.get("aslist") else arr(c["idx"], "int64")
+        idx = [pyint(i) for i in c["idx"]] if p.get("aslist") else arr(c["idx"], p.get("idt", "int64"))
         return ba[idx].unpack(), a
     if op == "window":
         return ba.sliding_window(c["w"]), a
@@ -42,6 +46,8 @@ def sym(E, p, kf):
     b = E.choose("b", p["bs"])
     k = 64 // b
     ns = sorted(set(x for x in ([1, 2, 3, k - 1, k, k + 1, 2 * k - 1, 2 * k, 2 * k + 1] if p.get("nmode") != "all" else range(1, 2 * k + 3)) if 1 <= x <= p["nmax"]))
+    if p.get("nlist"):
+        ns = list(p["nlist"])
     if p.get("zero"):
         ns = [0] + ns[:2]          # the empty array packs, unpacks and is indexed by the empty position list
     n = E.choose("n", ns)
@@ -78,7 +84,7 @@ def sym(E, p, kf):
     res, after = got["items"]
     v64 = [z3.ZeroExt(64 - w, v) if w < 64 else v for v in vals]
     conds = [specs.obs_goal(after, dict(k="array", flat=vals, shape=[n], dtype=dt))]
-    if op in ("unpack", "after"):
+    if op in ("unpack", "after", "unpack2"):
         conds.append(specs.obs_goal(res, dict(k="array", flat=v64, shape=[n], dtype="uint64")))
     elif op == "getint":
         conds.append(specs.eqv(res["val"], specs.select_chain(v64, c["i"])) if res["k"] == "scalar" else False)
@@ -101,7 +107,7 @@ def conc(case):
     got = outcome(lambda: run(c, p))
     vals, b, op = c["vals"], c["b"], p["op"]
     A = common.ref_array
-    if op in ("unpack", "after"):
+    if op in ("unpack", "after", "unpack2"):
         res = A(vals, [len(vals)], "uint64")
     elif op == "getint":
         res = common.ref_scalar(vals[c["i"]], "uint64")
@@ -134,6 +140,9 @@ def jobs(tier, seed):
     out.append(dict(bs=[16], nmax=6, op="after", dtype="uint64", nmode="all"))
     out.append(dict(bs=[1], nmax=66, op="window", dtype="uint64", nmode="edges", premask=True))
     out.append(dict(bs=[4, 16], nmax=3, op="unpack", dtype="uint8", zero=True))
+    out.append(dict(bs=[8, 32, 2], nmax=9, op="unpack2", dtype="uint64", nmode="edges"))
+    out.append(dict(bs=[8], nmax=34, op="getlist", dtype="uint64", m=1, idt="uint8", nmode="edges", nlist=[33, 34]))          # positions given in a narrow type
+    out.append(dict(bs=[32], nmax=10, op="getlist", dtype="uint64", m=1, idt="uint8", nmode="all", nlist=[9, 10]))
     out.append(dict(bs=[8], nmax=3, op="getlist", dtype="uint64", m=2, zero=True))
     out.append(dict(bs=[8], nmax=3, op="getlist", dtype="uint64", m=2, zero=True, aslist=True))
     out.append(dict(bs=[2, 8], nmax=33, op="unpack", dtype="uint8", nmode="edges", premask=True))
